@@ -298,7 +298,7 @@ def run_catalog(ctx: Ctx, focus: str) -> None:
     """Builder-made HUGRs of the catalogue (attributes: polymorphic functions, deltas, non-ASCII metadata, nested JSON...)."""
     from ..catalog import modules
     from hugr import ops
-    for name, h in modules():
+    for name, h in modules(nonfinite=(focus == "C03")):
         ctx.evaluations += 1
         ctx.nontriv(name)
         check_hugr(ctx, focus, h, {"catalog": name}, {"source": "catalog", "name": name})
